@@ -66,6 +66,12 @@ fn main() {
                 emit(&trace, &rep, &lines, false);
             }
         }
+        // the directed scenarios of a property's engine, one trace per line
+        Some("directed") => {
+            for t in engines::directed(&args[2], &args[3]) {
+                println!("{}", serde_json::to_string(&t).unwrap());
+            }
+        }
         Some("gen") => {
             let trace = engines::generate(&args[2], &args[3], args[4].parse().expect("seed"), flag("--thorough"));
             println!("{}", serde_json::to_string_pretty(&trace).unwrap());
